@@ -1197,8 +1197,11 @@ vbi_decode_vps(vbi_decoder *vbi, uint8_t *buf)
 		}
 
 		if (id != n->nuid) {
-			if (n->nuid != 0)
-				vbi_chsw_reset(vbi, id);
+			if (n->nuid != 0) {
+				/* Identified by its CNI, also when
+				   the CNI is not in our table. */
+				vbi_chsw_reset(vbi, id ? id : 1);
+			}
 
 			n->nuid = id;
 
@@ -1282,8 +1285,11 @@ parse_bsd(vbi_decoder *vbi, uint8_t *raw, int packet, int designation)
 				}
 
 				if (id != n->nuid) {
-					if (n->nuid != 0)
-						vbi_chsw_reset(vbi, id);
+					if (n->nuid != 0) {
+						/* Identified by its CNI, also when
+						   the CNI is not in our table. */
+						vbi_chsw_reset(vbi, id ? id : 1);
+					}
 
 					n->nuid = id;
 
@@ -1372,8 +1378,11 @@ parse_bsd(vbi_decoder *vbi, uint8_t *raw, int packet, int designation)
 				}
 
 				if (id != n->nuid) {
-					if (n->nuid != 0)
-						vbi_chsw_reset(vbi, id);
+					if (n->nuid != 0) {
+						/* Identified by its CNI, also when
+						   the CNI is not in our table. */
+						vbi_chsw_reset(vbi, id ? id : 1);
+					}
 
 					n->nuid = id;
 
